@@ -21,6 +21,8 @@ NAMEMAPS = {
     'newline': 'new\nline',
     'quote': 'q"uo\'te',
     'int': '123',
+    'idlike': '1',          # a name that is the decimal text of (another) asset's id
+    'idlike0': '0',
 }
 
 
@@ -174,10 +176,19 @@ class Adapter:
         for nm in self.namemaps:
             drv = MappedDriver(ctx, NAMEMAPS[nm])
             ok = True
-            for s in hist:
+            for k, s in enumerate(hist):
                 if drv.apply(s['act']) != s['act']['res']:
                     ok = False
                     break
+                if nm == self.namemaps[0] and k < len(hist) - 1:
+                    # saving is an observation: a save at an earlier point (here: after every step) leaves nothing behind
+                    # that a later save could pick up
+                    try:
+                        early = os.path.join(os.getcwd(), 'early-%d.%s' % (os.getpid(), ('json', 'yml')[k % 2]))
+                        drv.model.save_to_file(early)
+                        os.unlink(early)
+                    except Exception:
+                        pass
             if not ok or diff_obs(exp, drv.project()):
                 res['inconclusive'] = True        # the model itself diverged: C05's business
                 return res
